@@ -176,7 +176,8 @@ def lib_expr(env, e):
     try:
         return env.expr_memo[e]
     except KeyError:
-        obj = env.expr_memo[e] = exprsem.lib_of_ast(e, env.tags, env.val)
+        share = env.expr_memo if getattr(env, "share_subexpressions", False) else None
+        obj = env.expr_memo[e] = exprsem.lib_of_ast(e, env.tags, env.val, memo=share)
         return obj
     except TypeError:  # unhashable AST
         return exprsem.lib_of_ast(e, env.tags, env.val)
